@@ -217,6 +217,185 @@ theorem positionalSelf_of_index {D : Discipline} (h : D.tupleSelf = .byIndex) (k
   | list => exact Or.inr (by simp)
   | tuple => exact Or.inl (by simpa [selfWalk] using h)
 
+/-! ### the exact territory: `walkClean` -/
+
+theorem hasId_append (i : Nat) (pre rest : List Slot) : hasId i (pre ++ rest) = (hasId i pre || hasId i rest) := by
+  induction pre with
+  | nil => simp [hasId]
+  | cons p pre ih => simp [hasId, ih, Bool.or_assoc]
+
+/-- Tuple_Iter_Next from a slot whose object sits in no EARLIER slot returns the next slot (later occurrences do not matter) -/
+theorem afterFirst_fresh : ∀ (pre : List Slot) (s : Slot) (rest : List Slot),
+    hasId s.1 pre = false → afterFirst s.1 (pre ++ s :: rest) = rest := by
+  intro pre
+  induction pre with
+  | nil => intro s rest _; simp [afterFirst]
+  | cons p pre ih =>
+    intro s rest h
+    simp only [hasId, Bool.or_eq_false_iff, beq_eq_false_iff_ne, ne_eq] at h
+    simp only [List.cons_append, afterFirst, if_neg h.1]
+    exact ih s rest h.2
+
+/-- … and from a slot whose object DOES sit in an earlier slot it returns a cursor that still has the current slot ahead -/
+theorem afterFirst_of_hasId (i : Nat) : ∀ (pre l : List Slot), hasId i pre = true → ∃ t, afterFirst i (pre ++ l) = t ++ l := by
+  intro pre
+  induction pre with
+  | nil => intro l h; simp [hasId] at h
+  | cons p pre ih =>
+    intro l h
+    by_cases e : p.1 = i
+    · exact ⟨pre, by simp [afterFirst, e]⟩
+    · simp only [hasId, Bool.or_eq_true, beq_iff_eq] at h
+      rcases h with h | h
+      · exact absurd h e
+      · obtain ⟨t, ht⟩ := ih l h
+        exact ⟨t, by simp [afterFirst, e, ht]⟩
+
+/-- the step along `obj` from a slot that is clean -/
+theorem advance_obj_clean (k1 : SeqKind) (pre : List Slot) (s1 : Slot) (r1 : List Slot)
+    (h : k1 = .tuple → hasId s1.1 pre = false) : advance .byIterator k1 (pre ++ s1 :: r1) s1 r1 = r1 := by
+  cases k1 with
+  | array => rfl
+  | list => rfl
+  | tuple => simp only [advance, iterNext]; exact afterFirst_fresh pre s1 r1 (h rfl)
+
+theorem hasId_false_of_nodup (pre : List Slot) (s : Slot) (rest : List Slot) (h : idsNodup (pre ++ s :: rest) = true) :
+    hasId s.1 pre = false := by
+  induction pre with
+  | nil => rfl
+  | cons p pre ih =>
+    simp only [List.cons_append, idsNodup, Bool.and_eq_true, Bool.not_eq_true'] at h
+    have hne : ¬ p.1 = s.1 := by
+      intro e
+      have := hasId_append_self pre s rest
+      rw [← e] at this
+      rw [this] at h
+      exact absurd h.1 (by simp)
+    simp only [hasId, Bool.or_eq_false_iff, beq_eq_false_iff_ne, ne_eq]
+    exact ⟨hne, ih h.2⟩
+
+theorem slotsClean_tup_irrelevant (ops : FloatOps UInt64) : ∀ (cur1 : List Slot) (pre cur0 : List Slot),
+    slotsClean ops true pre cur1 cur0 = true → slotsClean ops false pre cur1 cur0 = true := by
+  intro cur1
+  induction cur1 with
+  | nil => intro pre cur0 _; simp [slotsClean]
+  | cons s1 r1 ih =>
+    obtain ⟨i1, o1⟩ := s1
+    intro pre cur0 h
+    cases cur0 with
+    | nil => simp [slotsClean]
+    | cons s0 r0 =>
+      simp only [slotsClean, Bool.and_eq_true, Bool.or_eq_true, bne_iff_ne, ne_eq, Bool.not_eq_true'] at h ⊢
+      refine ⟨h.1, ?_⟩
+      rcases h.2 with h2 | h2
+      · exact Or.inl h2
+      · exact Or.inr ⟨Or.inl (Or.inl trivial), ih _ _ h2.2⟩
+
+/-- objects none of whose Tuples holds an object twice are clean against every `self`: `nodup` is the coarser hypothesis -/
+theorem walkClean_of_nodup_aux (ops : FloatOps UInt64) : ∀ n : Nat,
+    (∀ b : Obj, b.size ≤ n → b.nodup = true → ∀ a, b.walkClean ops a = true) := by
+  intro n
+  induction n with
+  | zero => intro b hb; have := Obj.size_pos b; omega
+  | succ n ih =>
+    have slots : ∀ (tup : Bool) (cur1 : List Slot) (pre cur0 : List Slot), slotsSize cur1 ≤ n →
+        idsNodup (pre ++ cur1) = true → slotsNodup cur1 = true → slotsClean ops tup pre cur1 cur0 = true := by
+      intro tup cur1
+      induction cur1 with
+      | nil => intro pre cur0 _ _ _; simp [slotsClean]
+      | cons s1 r1 ihl =>
+        obtain ⟨i1, o1⟩ := s1
+        intro pre cur0 hsz hn hs
+        cases cur0 with
+        | nil => simp [slotsClean]
+        | cons s0 r0 =>
+          simp only [slotsSize] at hsz
+          simp only [slotsNodup, Bool.and_eq_true] at hs
+          have hid := hasId_false_of_nodup pre (i1, o1) r1 hn
+          have hn' : idsNodup ((pre ++ [(i1, o1)]) ++ r1) = true := by simpa using hn
+          have e1 := ih o1 (by omega) hs.1 s0.2
+          have e2 := ihl (pre ++ [(i1, o1)]) r0 (by omega) hn' hs.2
+          simp only at hid
+          simp [slotsClean, e1, e2, hid]
+    have ents : ∀ (e1 e0 : List (Val × Obj)), entsSize e1 ≤ n → entsNodup e1 = true → entsClean ops e1 e0 = true := by
+      intro e1
+      induction e1 with
+      | nil => intro e0 _ _; simp [entsClean]
+      | cons q1 r1 ihl =>
+        obtain ⟨k1, o1⟩ := q1
+        intro e0 hsz hn
+        cases e0 with
+        | nil => simp [entsClean]
+        | cons q0 r0 =>
+          simp only [entsSize] at hsz
+          simp only [entsNodup, Bool.and_eq_true] at hn
+          have c1 := ih o1 (by omega) hn.1 q0.2
+          have c2 := ihl r0 (by omega) hn.2
+          simp [entsClean, c1, c2]
+    intro b hb hnd a
+    cases b with
+    | val v => simp [Obj.walkClean]
+    | tuple ss =>
+      simp only [Obj.size] at hb
+      simp only [Obj.nodup, Bool.and_eq_true] at hnd
+      cases h : a.seqView with
+      | none => simp [Obj.walkClean, h]
+      | some p => obtain ⟨k0, s0⟩ := p; simp only [Obj.walkClean, h]; exact slots true ss [] s0 (by omega) (by simpa using hnd.1) hnd.2
+    | cont k ss =>
+      simp only [Obj.size] at hb
+      simp only [Obj.nodup, Bool.and_eq_true] at hnd
+      cases h : a.seqView with
+      | none => simp [Obj.walkClean, h]
+      | some p => obtain ⟨k0, s0⟩ := p; simp only [Obj.walkClean, h]; exact slots k.byIdentity ss [] s0 (by omega) (by simpa using hnd.1) hnd.2
+    | tree es =>
+      simp only [Obj.size] at hb
+      simp only [Obj.nodup] at hnd
+      cases h : a.treeView with
+      | none => simp [Obj.walkClean, h]
+      | some e0 => simp only [Obj.walkClean, h]; exact ents es e0 (by omega) hnd
+
+theorem walkClean_of_nodup (ops : FloatOps UInt64) (a b : Obj) (hb : b.nodup = true) : b.walkClean ops a = true :=
+  walkClean_of_nodup_aux ops b.size b (Nat.le_refl _) hb a
+
+/-- a clean walk, as the loop sees it: the slots of `obj` from its sequence view -/
+theorem seqView_clean (ops : FloatOps UInt64) {a b : Obj} {k0 k1 : SeqKind} {s0 s1 : List Slot}
+    (ha : a.seqView = some (k0, s0)) (hb : b.seqView = some (k1, s1)) (hc : b.walkClean ops a = true) :
+    slotsClean ops (k1.byIdentity) [] s1 s0 = true := by
+  cases b with
+  | tuple ss =>
+    simp [Obj.seqView] at hb; obtain ⟨rfl, rfl⟩ := hb
+    simpa [Obj.walkClean, ha, SeqKind.byIdentity] using hc
+  | cont k' ss =>
+    simp [Obj.seqView] at hb; obtain ⟨rfl, rfl⟩ := hb
+    simpa [Obj.walkClean, ha] using hc
+  | tree es => simp [Obj.seqView] at hb
+  | val v =>
+    cases v with
+    | seq k' xs =>
+      simp [Obj.seqView] at hb; obtain ⟨rfl, rfl⟩ := hb
+      have h := walkClean_of_nodup_aux ops (2 + slotsSize (enumSlots 0 xs)) (.tuple (enumSlots 0 xs))
+        (by simp [Obj.size]) (by simp [Obj.nodup, idsNodup_enumSlots, slotsNodup_enumSlots]) a
+      have ht : slotsClean ops true [] (enumSlots 0 xs) s0 = true := by simpa [Obj.walkClean, ha] using h
+      cases k' with
+      | tuple => simpa [SeqKind.byIdentity] using ht
+      | array => simpa [SeqKind.byIdentity] using slotsClean_tup_irrelevant ops _ _ _ ht
+      | list => simpa [SeqKind.byIdentity] using slotsClean_tup_irrelevant ops _ _ _ ht
+    | _ => simp [Obj.seqView] at hb
+
+theorem treeView_clean (ops : FloatOps UInt64) {a b : Obj} {e0 e1 : List (Val × Obj)}
+    (ha : a.treeView = some e0) (hb : b.treeView = some e1) (hc : b.walkClean ops a = true) : entsClean ops e1 e0 = true := by
+  cases b with
+  | tree es => simp [Obj.treeView] at hb; subst hb; simpa [Obj.walkClean, ha] using hc
+  | val v =>
+    cases v with
+    | tree kvs =>
+      simp [Obj.treeView] at hb; subst hb
+      have h := walkClean_of_nodup_aux ops (2 + entsSize (valEnts kvs)) (.tree (valEnts kvs))
+        (by simp [Obj.size]) (by simp [Obj.nodup, entsNodup_valEnts]) a
+      simpa [Obj.walkClean, ha] using h
+    | _ => simp [Obj.treeView] at hb
+  | _ => simp [Obj.treeView] at hb
+
 /-! ### soundness: the result is the comparison of the contents -/
 
 theorem seqCmp_cons_cons (ops : FloatOps UInt64) (x y : Val) (xs ys : List Val) :
@@ -262,21 +441,21 @@ theorem objCmpF_other (D : Discipline) (ops : FloatOps UInt64) (f : Nat) {a b : 
     · rw [hs]; exact inner
 
 theorem objCmpF_sound_aux (D : Discipline) (ops : FloatOps UInt64) (hD : D.tupleSelf = .byIndex) : ∀ f : Nat,
-    (∀ a b r, b.nodup = true → objCmpF D ops f a b = some r → r = valCmp ops a.content b.content) ∧
-    (∀ k0 k1 all0 pre cur0 cur1 r, idsNodup (pre ++ cur1) = true → slotsNodup cur1 = true →
+    (∀ a b r, b.walkClean ops a = true → objCmpF D ops f a b = some r → r = valCmp ops a.content b.content) ∧
+    (∀ k0 k1 all0 pre cur0 cur1 r, slotsClean ops k1.byIdentity pre cur1 cur0 = true →
       loopF D ops k0 k1 all0 (pre ++ cur1) f cur0 cur1 = some r → r = seqCmp ops (contents cur0) (contents cur1)) ∧
-    (∀ e0 e1 r, entsNodup e1 = true → treeLoopF D ops f e0 e1 = some r →
+    (∀ e0 e1 r, entsClean ops e1 e0 = true → treeLoopF D ops f e0 e1 = some r →
       r = entriesCmp ops (entContents e0) (entContents e1)) := by
   intro f
   induction f with
   | zero =>
-    refine ⟨fun a b r _ h => ?_, fun k0 k1 all0 pre cur0 cur1 r _ _ h => ?_, fun e0 e1 r _ h => ?_⟩
+    refine ⟨fun a b r _ h => ?_, fun k0 k1 all0 pre cur0 cur1 r _ h => ?_, fun e0 e1 r _ h => ?_⟩
     · simp [objCmpF] at h
     · simp [loopF] at h
     · simp [treeLoopF] at h
   | succ f ih =>
     obtain ⟨ihP, ihQ, ihT⟩ := ih
-    refine ⟨fun a b r hb h => ?_, fun k0 k1 all0 pre cur0 cur1 r hn hs h => ?_, fun e0 e1 r hn h => ?_⟩
+    refine ⟨fun a b r hb h => ?_, fun k0 k1 all0 pre cur0 cur1 r hs h => ?_, fun e0 e1 r hn h => ?_⟩
     · -- pairs that are not two sequences: two Trees, or anything else
       have tail : (a.seqView = none ∨ b.seqView = none) → r = valCmp ops a.content b.content := by
         intro hs
@@ -287,7 +466,7 @@ theorem objCmpF_sound_aux (D : Discipline) (ops : FloatOps UInt64) (hD : D.tuple
           | none => rw [objCmpF_other D ops f hs (Or.inr htb)] at h; simp at h; exact h.symm
           | some e1 =>
             rw [objCmpF_tree D ops f hs hta htb] at h
-            have := ihT e0 e1 r (treeView_nodup htb hb) h
+            have := ihT e0 e1 r (treeView_clean ops hta htb hb) h
             rw [treeView_content hta, treeView_content htb, valCmp]
             exact this
       cases ha' : a.seqView with
@@ -299,8 +478,7 @@ theorem objCmpF_sound_aux (D : Discipline) (ops : FloatOps UInt64) (hD : D.tuple
         | some p1 =>
           obtain ⟨k1, s1⟩ := p1
           rw [objCmpF_seq D ops f ha' hb'] at h
-          obtain ⟨hn, hs⟩ := seqView_nodup hb' hb
-          have := ihQ k0 k1 s0 [] s0 s1 r (by simpa using hn) hs (by simpa using h)
+          have := ihQ k0 k1 s0 [] s0 s1 r (seqView_clean ops ha' hb' hb) (by simpa using h)
           rw [seqView_content ha', seqView_content hb', valCmp]
           exact this
     · cases cur0 with
@@ -316,7 +494,7 @@ theorem objCmpF_sound_aux (D : Discipline) (ops : FloatOps UInt64) (hD : D.tuple
         | nil => simp [loopF] at h; simp [contents, seqCmp, h]
         | cons s1 r1 =>
           obtain ⟨i1, o1⟩ := s1
-          simp only [slotsNodup, Bool.and_eq_true] at hs
+          simp only [slotsClean, Bool.and_eq_true, Bool.or_eq_true, bne_iff_ne, ne_eq, Bool.not_eq_true'] at hs
           rw [loopF] at h
           simp only at h
           cases hc : objCmpF D ops f o0 o1 with
@@ -325,7 +503,7 @@ theorem objCmpF_sound_aux (D : Discipline) (ops : FloatOps UInt64) (hD : D.tuple
             rw [hc] at h
             simp only at h
             have hcv := ihP o0 o1 c hs.1 hc
-            rw [advance_self (positionalSelf_of_index hD k0), advance_obj k1 pre (i1, o1) r1 hn] at h
+            rw [advance_self (positionalSelf_of_index hD k0)] at h
             simp only [contents, seqCmp_cons_cons]
             rw [← hcv]
             by_cases h1 : c < 0
@@ -333,9 +511,43 @@ theorem objCmpF_sound_aux (D : Discipline) (ops : FloatOps UInt64) (hD : D.tuple
             · by_cases h2 : c > 0
               · simp [h1, h2] at h ⊢; exact h.symm
               · simp only [h1, h2, if_false] at h ⊢
-                have hn' : idsNodup ((pre ++ [(i1, o1)]) ++ r1) = true := by simpa using hn
-                have h' : loopF D ops k0 k1 all0 ((pre ++ [(i1, o1)]) ++ r1) f r0 r1 = some r := by simpa using h
-                exact ihQ k0 k1 all0 (pre ++ [(i1, o1)]) r0 r1 r hn' hs.2 h'
+                have hz : c = 0 := by omega
+                rcases hs.2 with hne | hstep
+                · exact absurd (hcv ▸ hz) hne
+                · by_cases hmis : k1 = .tuple ∧ hasId i1 pre = true
+                  · -- the harmless mis-step: `self` ends here, `obj` does not, and the misplaced cursor is not Terminal
+                    obtain ⟨hk, hid⟩ := hmis
+                    subst hk
+                    have hend : r0.isEmpty = true ∧ r1.isEmpty = false := by
+                      rcases hstep.1 with hh | hh
+                      · rcases hh with hh | hh
+                        · simp [SeqKind.byIdentity] at hh
+                        · rw [hid] at hh; cases hh
+                      · exact hh
+                    obtain ⟨t, ht⟩ := afterFirst_of_hasId i1 pre ((i1, o1) :: r1) hid
+                    simp only [advance, iterNext] at h
+                    rw [ht] at h
+                    cases r0 with
+                    | cons _ _ => simp at hend
+                    | nil =>
+                      cases r1 with
+                      | nil => simp at hend
+                      | cons s2 r2 =>
+                        obtain ⟨i2, o2⟩ := s2
+                        cases f with
+                        | zero => simp [loopF] at h
+                        | succ f' =>
+                          cases t with
+                          | nil => simp [loopF] at h; simp [contents, seqCmp, h]
+                          | cons t1 t2 => simp [loopF] at h; simp [contents, seqCmp, h]
+                  · have hfresh : k1 = .tuple → hasId i1 pre = false := by
+                      intro e
+                      cases hh : hasId i1 pre with
+                      | false => rfl
+                      | true => exact absurd ⟨e, hh⟩ hmis
+                    rw [advance_obj_clean k1 pre (i1, o1) r1 hfresh] at h
+                    have h' : loopF D ops k0 k1 all0 ((pre ++ [(i1, o1)]) ++ r1) f r0 r1 = some r := by simpa using h
+                    exact ihQ k0 k1 all0 (pre ++ [(i1, o1)]) r0 r1 r hstep.2 h'
     · cases e0 with
       | nil =>
         cases e1 with
@@ -347,7 +559,7 @@ theorem objCmpF_sound_aux (D : Discipline) (ops : FloatOps UInt64) (hD : D.tuple
         | nil => simp [treeLoopF] at h; simp [entContents, entriesCmp, h]
         | cons q1 r1 =>
           obtain ⟨k1, o1⟩ := q1
-          simp only [entsNodup, Bool.and_eq_true] at hn
+          simp only [entsClean, Bool.and_eq_true, Bool.or_eq_true, bne_iff_ne, ne_eq] at hn
           rw [treeLoopF] at h
           simp only at h
           simp only [entContents, entriesCmp_cons_cons]
@@ -356,6 +568,9 @@ theorem objCmpF_sound_aux (D : Discipline) (ops : FloatOps UInt64) (hD : D.tuple
           · by_cases g2 : valCmp ops k0 k1 > 0
             · simp [g1, g2] at h ⊢; exact h.symm
             · simp only [g1, g2, if_false] at h ⊢
+              have gz : valCmp ops k0 k1 = 0 := by omega
+              rcases hn with hne | hn
+              · exact absurd gz hne
               cases hc : objCmpF D ops f o0 o1 with
               | none => rw [hc] at h; simp at h
               | some c =>
@@ -368,11 +583,19 @@ theorem objCmpF_sound_aux (D : Discipline) (ops : FloatOps UInt64) (hD : D.tuple
                 · by_cases h2 : c > 0
                   · simp [h1, h2] at h ⊢; exact h.symm
                   · simp only [h1, h2, if_false] at h ⊢
-                    exact ihT r0 r1 r hn.2 h
+                    have hz : c = 0 := by omega
+                    rcases hn.2 with hne | hrest
+                    · exact absurd (hcv ▸ hz) hne
+                    · exact ihT r0 r1 r hrest h
+
+/-- soundness on the exact territory: whatever the loops return on a clean walk is the comparison of the contents -/
+theorem objCmpF_sound_clean (D : Discipline) (ops : FloatOps UInt64) (hD : D.tupleSelf = .byIndex) (f : Nat) (a b : Obj) (r : Int)
+    (hb : b.walkClean ops a = true) (h : objCmpF D ops f a b = some r) : r = valCmp ops a.content b.content :=
+  (objCmpF_sound_aux D ops hD f).1 a b r hb h
 
 theorem objCmpF_sound (D : Discipline) (ops : FloatOps UInt64) (hD : D.tupleSelf = .byIndex) (f : Nat) (a b : Obj) (r : Int)
     (hb : b.nodup = true) (h : objCmpF D ops f a b = some r) : r = valCmp ops a.content b.content :=
-  (objCmpF_sound_aux D ops hD f).1 a b r hb h
+  objCmpF_sound_clean D ops hD f a b r (walkClean_of_nodup ops a b hb) h
 
 /-! ### termination: fuel `size self` suffices when `self` is walked by position -/
 
@@ -475,6 +698,14 @@ theorem objCmpF_eq_content (D : Discipline) (ops : FloatOps UInt64) (hD : D.tupl
   cases h : objCmpF D ops f a b with
   | none => rw [h] at ht; simp at ht
   | some r => rw [objCmpF_sound D ops hD f a b r hb h]
+
+/-- both together, on the exact territory -/
+theorem objCmpF_eq_content_clean (D : Discipline) (ops : FloatOps UInt64) (hD : D.tupleSelf = .byIndex) (f : Nat) (a b : Obj)
+    (hf : a.size ≤ f) (hb : b.walkClean ops a = true) : objCmpF D ops f a b = some (valCmp ops a.content b.content) := by
+  have ht := objCmpF_terminates D ops hD f a b hf
+  cases h : objCmpF D ops f a b with
+  | none => rw [h] at ht; simp at ht
+  | some r => rw [objCmpF_sound_clean D ops hD f a b r hb h]
 
 /-! ### an identity walk over one object in two slots never leaves it -/
 
